@@ -320,4 +320,142 @@ theorem coherent_discard {d : Disk} {files : List (Name × UB)} {fl : Name} {ul 
           rw [hdr]; exact lastFile_mem _ _ (by simpa [lastFile] using hlast)
         exact hcomm (f, u) hm
 
+
+theorem createRec_next (s : State) (c : Bool) (n : Name) (t : Bool) (o : List Name) :
+    s.next ≤ (createRec s c n t o).st.next := by
+  rcases createRec_spec s c n t o with ⟨_, h⟩ | ⟨_, e, _, _, h⟩ | ⟨_, _, _, h⟩ <;> rw [h] <;> simp [fail]
+
+theorem createPatch_next (s : State) : s.next ≤ (createPatch s).st.next := by
+  unfold createPatch
+  simp only
+  repeat' split
+  all_goals simp [fail]
+
+theorem createPatch_next' (s' : State) (k : Nat) (h : s'.next = k) : k ≤ (createPatch s').st.next :=
+  h ▸ createPatch_next s'
+
+theorem commitPlain_next (s : State) : (commitPlain s).st.next = s.next := by
+  unfold commitPlain
+  simp only
+  repeat' split
+  all_goals simp [fail]
+
+theorem commitMF_next (s : State) : s.next ≤ (commitMF s).st.next := by
+  unfold commitMF
+  simp only
+  split
+  · simp [fail]
+  · split
+    · simp only
+      rw [commitPlain_next]; simp [mfPrep]
+    · simp [fail]
+
+theorem commitPatch_next (s : State) : s.next ≤ (commitPatch s).st.next := by
+  unfold commitPatch; split
+  · exact commitMF_next s
+  · rw [commitPlain_next]; exact Nat.le_refl _
+
+theorem close_next (s : State) (c : Bool) : s.next ≤ (close s c).st.next := by
+  rcases close_spec s c with ⟨_, h⟩ | ⟨_, _, _, _, h⟩ | ⟨_, _, _, _, h⟩ | ⟨_, _, h⟩ <;> rw [h]
+  · exact Nat.le_refl _
+  · exact commitPatch_next s
+  · exact commitPatch_next s
+  · exact Nat.le_refl _
+
+theorem openExisting_next (s : State) (c : Bool) (paths : List Name) (m : Mode) :
+    s.next ≤ (openExisting s c paths m).st.next := by
+  unfold openExisting
+  simp only
+  split
+  · simp [fail]
+  · split
+    · simp [fail]
+    · split
+      · split
+        · exact createPatch_next' _ _ rfl
+        · simp only [fail]; exact createPatch_next' _ _ rfl
+      · simp
+
+theorem openRec_next (s : State) (c : Bool) (t : Target) (m : Mode) : s.next ≤ (openRec s c t m).st.next := by
+  unfold openRec
+  split
+  · simp [fail]
+  · cases t with
+    | list fs =>
+      simp only
+      split
+      · simp [fail]
+      · split
+        · simp [fail]
+        · exact openExisting_next _ _ _ _
+    | name n =>
+      cases m with
+      | w => exact createRec_next _ _ _ _ _
+      | wm => exact createRec_next _ _ _ _ _
+      | x => exact createRec_next _ _ _ _ _
+      | r =>
+        simp only
+        split
+        · simp [fail]
+        · simp [fail]
+        · exact openExisting_next _ _ _ _
+      | rp =>
+        simp only
+        split
+        · simp [fail]
+        · simp [fail]
+        · exact openExisting_next _ _ _ _
+      | a =>
+        simp only
+        split
+        · simp [fail]
+        · exact createRec_next _ _ _ _ _
+        · exact openExisting_next _ _ _ _
+
+theorem discardPatch_next (s : State) : (discardPatch s).st.next = s.next := by
+  rcases discardPatch_spec s with hf | ⟨f, ub, _, _, _, _, _, heq⟩
+  · unfold discardPatch; simp only; repeat' split
+    all_goals simp [fail]
+  · rw [heq]
+
+theorem write_next (s : State) (k : Nat) : (write s k).st.next = s.next := by
+  unfold write; simp only; repeat' split
+  all_goals simp [fail]
+
+theorem mergeFiles_next (s : State) (t : Name) : s.next ≤ (mergeFiles s t).st.next := by
+  unfold mergeFiles
+  simp only
+  split
+  · simp [fail]
+  · split
+    · simp [fail]
+    · split
+      · split
+        · have h1 := createRec_next { s with h := {} } s.h.mfcls t false (fileNames s.h)
+          have h2 := close_next { (createRec { s with h := {} } s.h.mfcls t false (fileNames s.h)).st with
+            disk := setPayload (createRec { s with h := {} } s.h.mfcls t false (fileNames s.h)).st.disk (baseFile t)
+              (viewFiles s.disk s.h.files) } true
+          simp only at h1 h2
+          repeat' split
+          all_goals (simp only; omega)
+        · simp [fail]
+      · simp [fail]
+
+theorem step_next (s : State) (op : Op) : s.next ≤ (step s op).st.next := by
+  cases op with
+  | openRec c t m => exact openRec_next s c t m
+  | write k => simp only [step, write_next]; exact Nat.le_refl _
+  | read => simp only [step, (read_state s).1]; exact Nat.le_refl _
+  | createPatch => exact createPatch_next s
+  | commitPatch => exact commitPatch_next s
+  | discardPatch => simp only [step, discardPatch_next]; exact Nat.le_refl _
+  | close c => exact close_next s c
+  | merge t => exact mergeFiles_next s t
+  | deleteFiles n =>
+    show s.next ≤ (deleteFiles s n).st.next
+    unfold deleteFiles
+    split
+    · simp [fail]
+    · exact Nat.le_refl _
+
 end MetadorModel.Record
